@@ -398,4 +398,37 @@ theorem parseDelimited_nocommas_complete (hstop : isLit stop = true)
       simp [parseDelimited, hnis, hin, hx, hk, hkne, hrec]
 end Delimited2
 
+
+/-! ### the shape of a soundness statement -/
+
+/-- `x` parsed from `st` leaving `st'` is sound for the recogniser family `g` (indexed by the
+grammar's fuel) with slack `c`: at least one item was consumed, and `(er x, abs st')` is a
+derivation of `g gf` from `abs st` for every fuel `gf` that is at least the number of consumed
+items plus `c`. -/
+def Sound {α β : Type} (er : α → β) (g : Nat → SP β) (c : Nat) (st : PState) (x : α) (st' : PState) :
+    Prop :=
+  Suf st' st ∧ st'.toks.length < st.toks.length ∧
+  ∀ gf, st.toks.length + c ≤ st'.toks.length + gf → (er x, abs st') ∈ g gf (abs st)
+
+/-- structural facts about `parse_delimited` that do not depend on the grammar -/
+theorem parseDelimited_struct {α : Type} (stop : Token) (withCommas : Bool) (peeks : List Token)
+    (item : PState → PR α)
+    (hitem : ∀ st x st1, item st = .ok (x, st1) → Suf st1 st ∧ st1.toks.length < st.toks.length)
+    (fuel : Nat) (st : PState) (xs : List α) (st' : PState)
+    (h : parseDelimited stop withCommas peeks item fuel st = .ok (xs, st')) :
+    Suf st' st ∧ peekTok st' = some stop ∧ xs.length + st'.toks.length ≤ st.toks.length := by
+  cases withCommas with
+  | true =>
+    obtain ⟨a, b, c, _⟩ := parseDelimited_commas_sound stop peeks item id (fun _ => []) 0
+      (fun st x st1 hx => by
+        obtain ⟨a, b⟩ := hitem st x st1 hx
+        exact ⟨a, b, fun h => by omega⟩) fuel st xs st' h
+    exact ⟨a, b, c⟩
+  | false =>
+    obtain ⟨a, b, c, _⟩ := parseDelimited_nocommas_sound stop peeks item id (fun _ => []) 0
+      (fun st x st1 hx => by
+        obtain ⟨a, b⟩ := hitem st x st1 hx
+        exact ⟨a, b, fun h => by omega⟩) fuel st xs st' h
+    exact ⟨a, b, c⟩
+
 end Wac.C12
